@@ -26,14 +26,20 @@
     - [compile_fn_result_correct_partial]: the same for functions WITH a result ([blocks_ok_r]): the value
       reaches the final [end] by fall-through or by a br to the function's own label and is moved to
       register 0, where the final Return expects it.
-    NOT proved (correspondence-only, see design/C01.md): calls, br_table, loop results, value-typed if-else
-    whose then-branch ends with a jump, blocks entered with operands below them, br_if carrying a value
-    (KF-C01-1). *)
+    - [compile_dead_code_correct_partial], [compile_dead_code_fn_result_correct_partial]: the two theorems above
+      for bodies WITH DEAD CODE: br / return / unreachable (and br_table) may be followed by arbitrary further
+      instructions in the same body, at any nesting depth (fragment [blocks_ok_dead] / [blocks_ok_r_dead] =
+      [blocks_ok] / [blocks_ok_r] of the body with the instructions after the first terminator of every live
+      body removed, [strip]); [dead_code_fragment_widens]: the new fragments contain the old ones;
+      [dead_code_compiles_away]: the compiler's output for a body equals its output for the stripped body.
+    NOT proved (correspondence-only, see design/C01.md): calls, br_table as a LIVE instruction, loop results,
+    value-typed if-else whose then-branch ends with a jump, blocks entered with operands below them, br_if
+    carrying a value (KF-C01-1). *)
 From Coq Require Import ZArith NArith List Bool.
 From CB Require Import Common.IntN Common.IntNProofs Wasm.Syntax Wasm.SyntaxProofs Wasm.Sem Wasm.SemProofs
      Wasm.Compile Wasm.Machine Wasm.KnownClasses Wasm.Engine Wasm.Witnesses Wasm.EngineProofs Wasm.NumOpsProofs
      Wasm.MachineLemmas Wasm.CompileLemmas Wasm.StraightProofs Wasm.StraightExample
-     Wasm.BlockSim Wasm.BlockTheorem Wasm.BlockExample.
+     Wasm.BlockSim Wasm.BlockTheorem Wasm.BlockExample Wasm.BlockDead Wasm.BlockDeadTheorem Wasm.BlockDeadWiden.
 From Coq Require Import FMapPositive.
 Import ListNotations.
 Local Open Scope Z_scope.
@@ -493,6 +499,129 @@ Example blocks_nonvacuous :
         /\ exec_instr host cap m 30 st [VI32 4; VI32 0] [] (Block None blk_body) = RNormal st [VI32 4; VI32 0] []).
 Proof. exact ex_blocks. Qed.
 Print Assumptions blocks_nonvacuous.
+
+(** ** Dead code (the compiler's unreachable-marking path).  [strip] removes, in every body in live
+    position, the instructions after the first br / br_table / return / unreachable.  The compiler skips exactly
+    these instructions ([UnreachableInstruction] / [UnreachableFrame] in [handle_opcode]); what they do to the
+    validator's operand height is undone by the closing end / else.  Hence (for EVERY body, no fragment
+    restriction) compiling a function body gives the same compiler state - bytes, back-patch stack, provider
+    stack, registers, constants - and the same validation state as compiling the stripped body. *)
+Theorem dead_code_compiles_away : forall cx is v s v' s',
+  v_unreach v = None -> (0 < clen v)%nat ->
+  compile_ops cx (flatten_body is) v s = Some (v', s') ->
+  compile_ops cx (flatten_body (strip is)) v s = Some (v', s').
+Proof. exact strip_compile_body. Qed.
+Print Assumptions dead_code_compiles_away.
+
+(** ... and the reference interpreter never executes them (same result for every fuel). *)
+Theorem dead_code_never_executed : forall host cap m fuel st l vs bt is,
+  exec_instr host cap m fuel st l vs (Block bt (strip is)) = exec_instr host cap m fuel st l vs (Block bt is).
+Proof. exact exec_strip_block. Qed.
+Print Assumptions dead_code_never_executed.
+
+(** The new fragments contain the old ones (a body of the old fragment has no dead code). *)
+Theorem dead_code_fragment_widens : forall nl cx is,
+  (blocks_ok nl cx is = true -> blocks_ok_dead nl cx is = true)
+  /\ (forall t, blocks_ok_r nl cx t is = true -> blocks_ok_r_dead nl cx t is = true).
+Proof. exact (fun nl cx is => conj (blocks_ok_widen nl cx is) (fun t => blocks_ok_r_widen nl cx t is)). Qed.
+Print Assumptions dead_code_fragment_widens.
+
+(** [compile_block_correct_partial] for bodies with dead code: the hypothesis is [blocks_ok_dead]
+    (= [blocks_ok] of the stripped body); compilation and the reference run are those of the ORIGINAL body. *)
+Theorem compile_dead_code_correct_partial :
+  forall (art : artifact) (mhost : nat -> list Z -> option (option Z)) (cap : N)
+         (host : nat -> list val -> option memory -> host_result) (m : module) (cx : cctx)
+         (is : list instr) (nl next : Z) (v' : vstate) (sF : cstate) (rest_code : list N),
+    blocks_ok_dead nl cx is = true -> 0 <= nl <= next ->
+    compile_ops cx (flatten_body is) (init_vstate None) (init_fstate next) = Some (v', sF) ->
+    c_next sF < 2147483648 -> Z.of_nat (length (c_consts sF)) < 2147483648 ->
+    Z.of_nat (length (c_out sF ++ rest_code)) < 4294967296 ->
+    forall (codes : list (code_map * list Z)) (fidx : nat),
+      nth_error codes fidx
+        = Some (build_code (c_out sF ++ rest_code) xH (PositiveMap.empty N), map fst (c_consts sF)) ->
+      forall (st : store) (locals : list val) (M : mstate) (fuel : nat),
+        rel art fidx (map fst (c_consts sF)) nl (c_next sF) cap (init_fstate next) st locals [] M ->
+        match exec_instr host cap m fuel st locals [] (Block None is) with
+        | RNormal st' l' vs' =>
+            vs' = [] /\ exists n M', nsteps art mhost codes n M = SNext M'
+                       /\ rel art fidx (map fst (c_consts sF)) nl (c_next sF) cap sF st' l' [] M' /\ frame_eq M M'
+        | RReturn st' vs' =>
+            exists n M', nsteps art mhost codes n M = SNext M' /\ frame_eq M M' /\ ms_idx M' = fidx
+              /\ code_at (build_code (c_out sF ++ rest_code) xH (PositiveMap.empty N)) (ms_pc M') [IReturn]
+              /\ Forall2 repr (ms_globals M') (s_globals st') /\ mem_rel art cap (ms_mem M') (s_mem st')
+              /\ match cx_return cx with
+                 | Some _ => exists v vs0, vs' = v :: vs0 /\ repr (reg M' 0) v
+                 | None => True
+                 end
+        | RTrap => exists n e, nsteps art mhost codes n M = STrap e
+        | RBr _ _ _ _ => False
+        | _ => True
+        end.
+Proof. exact compile_dead_correct. Qed.
+Print Assumptions compile_dead_code_correct_partial.
+
+(** [compile_fn_result_correct_partial] for bodies with dead code. *)
+Theorem compile_dead_code_fn_result_correct_partial :
+  forall (art : artifact) (mhost : nat -> list Z -> option (option Z)) (cap : N)
+         (host : nat -> list val -> option memory -> host_result) (m : module) (cx : cctx)
+         (is : list instr) (t : valtype) (nl next : Z) (v' : vstate) (sF : cstate) (rest_code : list N),
+    blocks_ok_r_dead nl cx t is = true -> 0 <= nl <= next -> 0 < next ->
+    compile_ops cx (flatten_body is) (init_vstate (Some t)) (init_fstate_r next) = Some (v', sF) ->
+    c_next sF < 2147483648 -> Z.of_nat (length (c_consts sF)) < 2147483648 ->
+    Z.of_nat (length (c_out sF ++ rest_code)) < 4294967296 ->
+    forall (codes : list (code_map * list Z)) (fidx : nat),
+      nth_error codes fidx
+        = Some (build_code (c_out sF ++ rest_code) xH (PositiveMap.empty N), map fst (c_consts sF)) ->
+      forall (st : store) (locals : list val) (M : mstate) (fuel : nat),
+        rel art fidx (map fst (c_consts sF)) nl (c_next sF) cap (init_fstate_r next) st locals [] M ->
+        match exec_instr host cap m fuel st locals [] (Block (Some t) is) with
+        | RNormal st' l' vs' =>
+            exists v, vs' = [v] /\ exists n M', nsteps art mhost codes n M = SNext M' /\ frame_eq M M'
+              /\ ms_idx M' = fidx /\ ms_pc M' = cur_off sF
+              /\ Forall2 repr (ms_globals M') (s_globals st') /\ mem_rel art cap (ms_mem M') (s_mem st')
+              /\ repr (reg M' 0) v
+        | RReturn st' vs' =>
+            exists n M', nsteps art mhost codes n M = SNext M' /\ frame_eq M M' /\ ms_idx M' = fidx
+              /\ code_at (build_code (c_out sF ++ rest_code) xH (PositiveMap.empty N)) (ms_pc M') [IReturn]
+              /\ Forall2 repr (ms_globals M') (s_globals st') /\ mem_rel art cap (ms_mem M') (s_mem st')
+              /\ match cx_return cx with
+                 | Some _ => exists v vs0, vs' = v :: vs0 /\ repr (reg M' 0) v
+                 | None => True
+                 end
+        | RTrap => exists n e, nsteps art mhost codes n M = STrap e
+        | RBr _ _ _ _ => False
+        | _ => True
+        end.
+Proof. exact compile_dead_fn_result_correct. Qed.
+Print Assumptions compile_dead_code_fn_result_correct_partial.
+
+(** non-vacuity: dead code after br (incl. stack-polymorphic pops from the empty stack, a whole dead
+    value-typed frame with a br_if to a value-typed label inside), after return (then-branch of an if) and
+    after unreachable (else-branch); the body is NOT in the old fragment; the run returns / traps *)
+Example dead_code_nonvacuous :
+  blocks_ok_dead 2 dead_cx dead_body = true /\ blocks_ok 2 dead_cx dead_body = false
+  /\ (exists v' sF, compile_ops dead_cx (flatten_body dead_body) (init_vstate None) (init_fstate 2) = Some (v', sF)
+       /\ c_bp sF = [] /\ c_stack sF = []
+       /\ c_next sF < 2147483648 /\ Z.of_nat (length (c_consts sF)) < 2147483648
+       /\ Z.of_nat (length (c_out sF ++ [IReturn])) < 4294967296)
+  /\ (forall host cap m st,
+        exec_instr host cap m 30 st [VI32 0; VI32 1] [] (Block None dead_body) = RReturn st []
+        /\ exec_instr host cap m 30 st [VI32 0; VI32 0] [] (Block None dead_body) = RTrap).
+Proof. exact ex_dead. Qed.
+Print Assumptions dead_code_nonvacuous.
+
+(** non-vacuity for functions with a result: dead code after a br to the function label and after return *)
+Example dead_code_fn_nonvacuous :
+  blocks_ok_r_dead 2 dead_fn_cx T_i32 dead_fn_body = true /\ blocks_ok_r 2 dead_fn_cx T_i32 dead_fn_body = false
+  /\ (exists v' sF, compile_ops dead_fn_cx (flatten_body dead_fn_body) (init_vstate (Some T_i32)) (init_fstate_r 2) = Some (v', sF)
+       /\ c_bp sF = []
+       /\ c_next sF < 2147483648 /\ Z.of_nat (length (c_consts sF)) < 2147483648
+       /\ Z.of_nat (length (c_out sF ++ [IReturn])) < 4294967296)
+  /\ (forall host cap m st,
+        exec_instr host cap m 30 st [VI32 1; VI32 5] [] (Block (Some T_i32) dead_fn_body) = RNormal st [VI32 1; VI32 5] [VI32 7]
+        /\ exec_instr host cap m 30 st [VI32 0; VI32 5] [] (Block (Some T_i32) dead_fn_body) = RReturn st [VI32 5]).
+Proof. exact ex_dead_fn. Qed.
+Print Assumptions dead_code_fn_nonvacuous.
 
 (** non-vacuity: a module outside the classes on which specification and engine model agree *)
 Example outside_classes_agree :
